@@ -173,6 +173,11 @@ func (x *ctx) metamorphic(gen func(emit func(*mItem)), opts *mOpts) {
 			if c.it.norm != nil {
 				got = c.it.norm(rb.Stdout)
 			}
+			// a watchdog `timeout` that survived the retries is load noise here (hangs are C02's business):
+			// never confirm a metamorphic difference with it
+			if strings.TrimSpace(ra.Stdout) == "timeout" || strings.TrimSpace(rb.Stdout) == "timeout" {
+				continue
+			}
 			if exp != got {
 				confirmed++
 				r.Validated++
